@@ -231,6 +231,10 @@ package runtime
 // of e when the critical section that committed the operation was entered /
 // left. chanbuf(p): the buffer address fixed by NewChan. Buffered paths only
 // (p.cap > 0); the unbuffered rendezvous and select are not decided.
+// wakes-all-waiters: senders, receivers and hand-off waiters of a channel sleep
+// on ONE condition variable, so an operation that changed the channel must
+// Broadcast (a Signal may go to a waiter of the wrong kind, which goes back to
+// sleep: the wake-up is lost and a sender and a receiver stay blocked together).
 
 //@ ghostfn chanbuf(word) word
 
@@ -279,6 +283,7 @@ package runtime
 //@ ensures C10 sent-slot: p.cap > 0 && result ==> forall a uintptr :: inslot(a, p, (cs_old(p.getp) + cs_old(p.len)) % p.cap, eltSize) ==> cs_new(mem[a]) == cs_old(mem[v + (a - slotaddr(p, (p.getp + p.len) % p.cap, eltSize))])
 //@ ensures C10 sent-others: p.cap > 0 && result ==> forall a uintptr :: inbuf(a, p, eltSize) && !inslot(a, p, (cs_old(p.getp) + cs_old(p.len)) % p.cap, eltSize) ==> cs_new(mem[a]) == cs_old(mem[a])
 //@ ensures C10 not-sent: p.cap > 0 && !result ==> cs_new(p.len) == cs_old(p.len) && cs_new(p.getp) == cs_old(p.getp) && forall a uintptr :: inbuf(a, p, eltSize) ==> cs_new(mem[a]) == cs_old(mem[a])
+//@ ensures C10 wakes-all-waiters: result ==> ghost(broadcasts) >= 1
 //@ modifies everything
 
 //@ func ChanClose
@@ -291,6 +296,7 @@ package runtime
 //@ ensures_panic C03 panics-only-when-nil-or-closed: p == nil || cs_old(p.close)
 //@ ensures C03 closed-close-does-not-return: p != nil && !cs_old(p.close)
 //@ ensures C10 closed: cs_new(p.close) && cs_new(p.len) == cs_old(p.len) && cs_new(p.getp) == cs_old(p.getp)
+//@ ensures C10 wakes-all-waiters: ghost(broadcasts) >= 1
 //@ modifies everything
 
 //@ func ChanTrySend
@@ -308,6 +314,7 @@ package runtime
 //@ ensures C10 sent-slot: p.cap > 0 && result ==> forall a uintptr :: inslot(a, p, (cs_old(p.getp) + cs_old(p.len)) % p.cap, eltSize) ==> cs_new(mem[a]) == cs_old(mem[v + (a - slotaddr(p, (p.getp + p.len) % p.cap, eltSize))])
 //@ ensures C10 sent-others: p.cap > 0 && result ==> forall a uintptr :: inbuf(a, p, eltSize) && !inslot(a, p, (cs_old(p.getp) + cs_old(p.len)) % p.cap, eltSize) ==> cs_new(mem[a]) == cs_old(mem[a])
 //@ ensures C10 not-sent: p.cap > 0 && !result ==> cs_new(p.len) == cs_old(p.len) && cs_new(p.getp) == cs_old(p.getp) && forall a uintptr :: inbuf(a, p, eltSize) ==> cs_new(mem[a]) == cs_old(mem[a])
+//@ ensures C10 wakes-all-waiters: result ==> ghost(broadcasts) >= 1
 //@ modifies everything
 
 //@ func ChanRecv
@@ -325,6 +332,7 @@ package runtime
 //@ ensures C10 recv-header: recvOK ==> cs_old(p.len) > 0 && cs_new(p.len) == cs_old(p.len) - 1 && cs_new(p.getp) == (cs_old(p.getp) + 1) % p.cap && cs_new(p.close) == cs_old(p.close)
 //@ ensures C10 recv-value: recvOK && v != nil ==> forall b uintptr :: b < uintptr(eltSize) ==> mem[v + b] == cs_old(mem[slotaddr(p, p.getp, eltSize) + b])
 //@ ensures C10 buffer-kept: forall a uintptr :: inbuf(a, p, eltSize) ==> cs_new(mem[a]) == cs_old(mem[a])
+//@ ensures C10 wakes-all-waiters: recvOK ==> ghost(broadcasts) >= 1
 //@ modifies everything
 
 //@ func chanTryRecv
@@ -341,6 +349,7 @@ package runtime
 //@ ensures C10 recv-header: recvOK ==> tryOK && cs_old(p.len) > 0 && cs_new(p.len) == cs_old(p.len) - 1 && cs_new(p.getp) == (cs_old(p.getp) + 1) % p.cap && cs_new(p.close) == cs_old(p.close)
 //@ ensures C10 recv-value: recvOK && v != nil ==> forall b uintptr :: b < uintptr(eltSize) ==> mem[v + b] == cs_old(mem[slotaddr(p, p.getp, eltSize) + b])
 //@ ensures C10 buffer-kept: forall a uintptr :: inbuf(a, p, eltSize) ==> cs_new(mem[a]) == cs_old(mem[a])
+//@ ensures C10 wakes-all-waiters: recvOK ==> ghost(broadcasts) >= 1
 //@ modifies everything
 
 //@ func NewChan
